@@ -2,14 +2,15 @@
 # eval_seeds.sh [-t tier] [-p PROP] [ids...] : for each seeded change, make a scratch worktree of /repo, apply the patch there, run the check of its
 # property against that worktree (SLU_REPO) with evidence/replays redirected (VERIF_OUT), log to /verif/seeded/<id>/detect.txt, remove the worktree.
 # /repo itself and /verif/evidence are never touched.
-cd /verif
+HERE=$(cd "$(dirname "$0")/.." && pwd); cd $HERE   # checks come from this tree (a vp-run snapshot or /verif); results always go to /verif/seeded
 TIER=quick; PROPOVR=""
 while getopts "t:p:" o; do case $o in t) TIER=$OPTARG;; p) PROPOVR=$OPTARG;; esac; done; shift $((OPTIND-1))
+[ -x build/slusym-instr ] || python3 lib/setup.py >/dev/null
 for d in ${@:-$(ls seeded)}; do
   P=${PROPOVR:-$(echo $d | cut -c1-3)}
   W=/tmp/se_$d; O=/tmp/se_${d}_out; rm -rf $W $O; git -C /repo worktree prune
   git -C /repo worktree add -q --detach $W HEAD || { echo "$d: worktree failed"; continue; }
-  git -C $W apply /verif/seeded/$d/patch.diff || { echo "$d: patch does not apply"; git -C /repo worktree remove --force $W; continue; }
+  git -C $W apply $HERE/seeded/$d/patch.diff || { echo "$d: patch does not apply"; git -C /repo worktree remove --force $W; continue; }
   t0=$(date +%s)
   SLU_REPO=$W VERIF_OUT=$O timeout 3000 ./bin/check $P --tier $TIER > /tmp/seed_${d}_$P.log 2>&1; rc=$?
   nv=$(grep -c "^VIOLATION property=$P" /tmp/seed_${d}_$P.log)
